@@ -223,6 +223,7 @@ pub mod gaph_m {
 use super::*;
 impl CanonicalRequest {
 //@ fn canonical.rs impl CanonicalRequest :: get_auth_parameters_from_auth_header
+//@ params auth_header
 //@ hideutf8
 //@ props C08 C19 C13 C02 C17
 //@ ret r
@@ -356,6 +357,7 @@ pub mod gapq_m {
 use super::*;
 impl CanonicalRequest {
 //@ fn canonical.rs impl CanonicalRequest :: get_auth_parameters_from_query_parameters
+//@ params query_alg
 //@ hideutf8
 //@ props C08 C19 C13 C02 C17
 //@ ret r
@@ -460,6 +462,7 @@ pub mod gap_m {
 use super::*;
 impl CanonicalRequest {
 //@ fn canonical.rs impl CanonicalRequest :: get_auth_parameters
+//@ params signed_header_requirements
 //@ hideutf8
 //@ attr #[verifier::rlimit(40)] // five loop queries in a large context: slack so that an unrelated edit elsewhere in the unit cannot tip it over the default limit
 //@ props C08 C05 C19 C13 C17
@@ -605,6 +608,7 @@ impl CanonicalRequest {
 impl CanonicalRequest {
 
 //@ fn canonical.rs impl CanonicalRequest :: get_authenticator_from_auth_parameters
+//@ params auth_params
 //@ hideutf8
 //@ props C08 C01 C13 C16 C04 C17
 //@ ret r
@@ -648,6 +652,12 @@ impl CanonicalRequest {
     pub open spec fn carrier_timestamp(&self) -> Seq<char> {
         if self.hview().contains_key(H_AUTHORIZATION()) { latin1(self.header_date()->Some_0) } else { latin1(self.first_query_decoded(Q_DATE())) }
     }
+    pub proof fn lemma_selected_carrier_fine(&self, p: AuthParams)
+        requires self.carrier_selected(p)
+        ensures
+            (self.hview().contains_key(H_AUTHORIZATION()) && !self.qview().contains_key(Q_ALGORITHM()) && !self.header_carrier_fails(self.first_auth_header()))
+            || (!self.hview().contains_key(H_AUTHORIZATION()) && self.qview().contains_key(Q_ALGORITHM()) && self.first_query_alg() == ALGO() && !self.query_carrier_missing())
+    {}
     pub proof fn lemma_selected_timestamp(&self, p: AuthParams)
         requires self.carrier_selected(p)
         ensures p.timestamp_str@ == self.carrier_timestamp()
@@ -657,7 +667,20 @@ impl CanonicalRequest {
         self.acceptable_params(always, ifreq, prefixes) && iso_instant(str_bytes(self.carrier_timestamp())) is Some
     }
 
+    /// C13 (rules 5-9 in order): which kind a refusal by get_authenticator has, whatever else is wrong with the request later on
+    pub open spec fn rules_5_to_9_verdict(&self, always: Seq<Seq<u8>>, ifreq: Seq<Seq<u8>>, prefixes: Seq<Seq<u8>>, e: SignatureError) -> bool {
+        let ha = self.hview().contains_key(H_AUTHORIZATION());
+        let qa = self.qview().contains_key(Q_ALGORITHM());
+        &&& (ha && qa ==> e is SignatureDoesNotMatch)
+        &&& (!ha && !qa ==> e is MissingAuthenticationToken)
+        &&& (ha && !qa && self.header_carrier_fails(self.first_auth_header()) ==> e is IncompleteSignature)
+        &&& (!ha && qa && self.first_query_alg() != ALGO() ==> e is MissingAuthenticationToken)
+        &&& (!ha && qa && self.first_query_alg() == ALGO() && self.query_carrier_missing() ==> e is IncompleteSignature)
+        &&& ((exists|p: AuthParams| self.carrier_selected(p)) && !self.acceptable_params(always, ifreq, prefixes) ==> e is SignatureDoesNotMatch)
+        &&& (self.acceptable_params(always, ifreq, prefixes) ==> e is IncompleteSignature)
+    }
 //@ fn canonical.rs impl CanonicalRequest :: get_authenticator
+//@ params signed_header_requirements
 //@ hideutf8
 //@ props C08 C01 C05 C13 C16 C19 C17
 //@ ret r
@@ -673,10 +696,33 @@ impl CanonicalRequest {
         r is Err ==> (r->Err_0 is SignatureDoesNotMatch || r->Err_0 is MissingAuthenticationToken || r->Err_0 is IncompleteSignature), //# C13 name=rules_5_to_9_error_kinds
         self.acceptable_authenticator(signed_header_requirements.always_spec(), signed_header_requirements.if_in_request_spec(),
             signed_header_requirements.prefixes_spec()) ==> r is Ok, //# C02 name=request_passing_rules_5_to_9_gets_an_authenticator
+        self.hview().contains_key(H_AUTHORIZATION()) && self.qview().contains_key(Q_ALGORITHM())
+            ==> r is Err && r->Err_0 is SignatureDoesNotMatch, //# C13 C19 name=rule_5_both_carriers_wins_over_later_defects
+        !self.hview().contains_key(H_AUTHORIZATION()) && !self.qview().contains_key(Q_ALGORITHM())
+            ==> r is Err && r->Err_0 is MissingAuthenticationToken, //# C13 name=rule_5_no_carrier_wins_over_later_defects
+        self.hview().contains_key(H_AUTHORIZATION()) && !self.qview().contains_key(Q_ALGORITHM()) && self.header_carrier_fails(self.first_auth_header())
+            ==> r is Err && r->Err_0 is IncompleteSignature, //# C13 name=rule_6_header_syntax_wins_over_requirements_and_date
+        !self.hview().contains_key(H_AUTHORIZATION()) && self.qview().contains_key(Q_ALGORITHM()) && self.first_query_alg() != ALGO()
+            ==> r is Err && r->Err_0 is MissingAuthenticationToken, //# C13 name=rule_7a_algorithm_wins_over_missing_parameters
+        !self.hview().contains_key(H_AUTHORIZATION()) && self.qview().contains_key(Q_ALGORITHM()) && self.first_query_alg() == ALGO() && self.query_carrier_missing()
+            ==> r is Err && r->Err_0 is IncompleteSignature, //# C13 name=rule_7d_missing_parameters_win_over_requirements_and_date
+        r is Err ==> self.rules_5_to_9_verdict(signed_header_requirements.always_spec(), signed_header_requirements.if_in_request_spec(),
+            signed_header_requirements.prefixes_spec(), r->Err_0), //# C13 name=refusal_kind_is_that_of_the_earliest_failing_rule_5_to_9
+        r is Ok ==> self.acceptable_authenticator(signed_header_requirements.always_spec(), signed_header_requirements.if_in_request_spec(),
+            signed_header_requirements.prefixes_spec()), //# C13 C05 name=no_authenticator_unless_rules_5_to_9_pass
+        (forall|p: AuthParams| #[trigger] self.carrier_selected(p) ==> !requirements_met(p.signed(), self.hview(), signed_header_requirements.always_spec(),
+            signed_header_requirements.if_in_request_spec(), signed_header_requirements.prefixes_spec())) && (exists|p: AuthParams| self.carrier_selected(p))
+            ==> r is Err && r->Err_0 is SignatureDoesNotMatch, //# C13 C05 name=rule_8_unsigned_required_header_wins_over_bad_date
 //@ bodystart
     hide(CanonicalRequest::carrier_selected);
     hide(requirements_met);
     hide(CanonicalRequest::is_creq);
+    proof {
+        if exists|p: AuthParams| self.carrier_selected(p) {
+            let p = choose|p: AuthParams| self.carrier_selected(p);
+            self.lemma_selected_carrier_fine(p);
+        }
+    }
 //@ before 1 `self.get_authenticator_from_auth_parameters(auth_params)`
     let ghost p0 = auth_params;
     proof { self.lemma_carrier_selected_builder(auth_params); self.lemma_selected_timestamp(auth_params); }
